@@ -443,15 +443,24 @@ def _guard(ctx, rule, fn):
         ctx.undecided(rule, None, None, f"{rule}:{fn.__name__}", f"{type(e).__name__}: {e}")
 
 
+def _run_rule(ctx, name, fn):
+    """a sub-rule that cannot be evaluated is recorded as undecided; the remaining rules still run"""
+    try:
+        return fn(ctx)
+    except (Undecided, AnchorMissing) as e:
+        ctx.undecided(name, None, None, f"{name}:analysis", f"{type(e).__name__}: {e}")
+        return 0
+
+
 def check(ctx: Ctx):
     _guard(ctx, "R15.3", check_constructor_args)
     _guard(ctx, "R15.3", check_mutable_defaults)
     _guard(ctx, "R15.1", check_result_purity)
     _guard(ctx, "R15.1", check_no_input_mutation)
     _guard(ctx, "R15.2", check_options)
-    check_pools(ctx)
-    check_state_writers(ctx)
-    check_globals(ctx)
+    _run_rule(ctx, "check_pools", check_pools)
+    _run_rule(ctx, "check_state_writers", check_state_writers)
+    _run_rule(ctx, "check_globals", check_globals)
     _guard(ctx, "R15.8", check_param_aliasing)
 
 
